@@ -21,91 +21,132 @@ recursion `exprSem` / `argsSem` / `xorSem`; then the statement loop for one defi
 namespace QV.Compiler
 open QV
 
-/-! ### classical effect of one gate -/
+/-! ### classical effect of one gate
 
-/-- the basis state reached by the gates emitted so far, from the initial state `σ0` -/
-def cur (σ0 : BState) (s : CState) : BState := runClassical s.qc.gates.toList σ0
+Qubit values are tracked as total functions `Nat → Bool` (`runF`), which frees the invariants from
+length side conditions; `runF_spec` relates them to `runClassical` on a list state that is long
+enough for every wire. -/
 
-theorem runClassical_length (gs : List AGate) (σ : BState) : (runClassical gs σ).length = σ.length := by
+/-- a basis state as a total function -/
+abbrev FState := Nat → Bool
+
+def applyF (g : AGate) (f : FState) : FState :=
+  match g.wires.getLast? with
+  | none => f
+  | some t => if g.wires.dropLast.all f then (fun q => if q = t then !f t else f q) else f
+
+def stepF (f : FState) (g : AGate) : FState := if g.cls.isMCXLike then applyF g f else f
+
+def runF (gs : List AGate) (f : FState) : FState := gs.foldl stepF f
+
+theorem runF_cons (g : AGate) (gs : List AGate) (f : FState) : runF (g :: gs) f = runF gs (stepF f g) := rfl
+
+theorem runF_append (a b : List AGate) (f : FState) : runF (a ++ b) f = runF b (runF a f) := by
+  unfold runF; rw [List.foldl_append]
+
+/-- the list state seen as a function (zero beyond its length) -/
+def toF (σ : BState) : FState := fun q => σ.getD q false
+
+theorem stepF_spec (g : AGate) (σ : BState) (h : ∀ w ∈ g.wires, w < σ.length) :
+    toF (stepClassical σ g) = stepF (toF σ) g := by
+  unfold stepClassical stepF
+  split
+  · unfold AGate.applyClassical applyF
+    cases ht : g.wires.getLast? with
+    | none => rfl
+    | some t =>
+      have htl : t < σ.length := h t (List.mem_of_getLast? ht)
+      dsimp only
+      have e : (g.wires.dropLast.all fun c => σ.getD c false) = g.wires.dropLast.all (toF σ) := rfl
+      rw [e]
+      split
+      · funext q
+        show (σ.flip t).getD q false = _
+        rw [flip_getD]
+        by_cases hq : q = t
+        · subst hq; simp [htl, toF]
+        · simp [hq, Ne.symm hq, toF]
+      · rfl
+  · rfl
+
+/-- `runClassical` on a list state long enough for every wire agrees with `runF` -/
+theorem runF_spec (gs : List AGate) (σ : BState) (h : ∀ g ∈ gs, ∀ w ∈ g.wires, w < σ.length) :
+    toF (runClassical gs σ) = runF gs (toF σ) := by
   induction gs generalizing σ with
   | nil => rfl
-  | cons g gs ih => rw [runClassical_cons, ih, stepClassical_length]
+  | cons g gs ih =>
+    rw [runClassical_cons, runF_cons, ← stepF_spec g σ (h g List.mem_cons_self)]
+    apply ih
+    intro g' hg' w hw
+    rw [stepClassical_length]
+    exact h g' (List.mem_cons_of_mem _ hg') w hw
 
-theorem cur_length (σ0 : BState) (s : CState) : (cur σ0 s).length = σ0.length :=
-  runClassical_length _ _
-
-theorem runClassical_snoc (gs : List AGate) (g : AGate) (σ : BState) :
-    runClassical (gs ++ [g]) σ = stepClassical (runClassical gs σ) g := by
-  rw [runClassical_append]; rfl
+/-- the basis state reached by the gates emitted so far, from the initial state `σ0` -/
+def cur (σ0 : FState) (s : CState) : FState := runF s.qc.gates.toList σ0
 
 /-- an MCX-like gate on `cs ++ [t]` xors the conjunction of the controls into `t` -/
-theorem applyClassical_getD_eq (g : AGate) (cs : List Nat) (t : Nat) (hw : g.wires = cs ++ [t])
-    (σ : BState) (ht : t < σ.length) :
-    (g.applyClassical σ).getD t false =
-      Bool.xor (σ.getD t false) (cs.all fun c => σ.getD c false) := by
-  unfold AGate.applyClassical
+theorem applyF_eq (g : AGate) (cs : List Nat) (t : Nat) (hw : g.wires = cs ++ [t]) (f : FState) :
+    applyF g f t = Bool.xor (f t) (cs.all f) := by
+  unfold applyF
   rw [hw]
   simp only [List.getLast?_append, List.getLast?_singleton, Option.some_or, List.dropLast_concat]
   split
-  · next h => rw [flip_getD, h]; simp [ht]
+  · next h => rw [h]; simp
   · next h =>
-    have : (cs.all fun c => σ.getD c false) = false := by simpa using h
+    have : cs.all f = false := by simpa using h
     rw [this]; simp
 
-theorem applyClassical_getD_ne (g : AGate) (cs : List Nat) (t : Nat) (hw : g.wires = cs ++ [t])
-    (σ : BState) (q : Nat) (hq : q ≠ t) :
-    (g.applyClassical σ).getD q false = σ.getD q false := by
-  unfold AGate.applyClassical
+theorem applyF_ne (g : AGate) (cs : List Nat) (t : Nat) (hw : g.wires = cs ++ [t]) (f : FState)
+    (q : Nat) (hq : q ≠ t) : applyF g f q = f q := by
+  unfold applyF
   rw [hw]
   simp only [List.getLast?_append, List.getLast?_singleton, Option.some_or, List.dropLast_concat]
   split
-  · rw [flip_getD]; simp [Ne.symm hq]
+  · simp [hq]
   · rfl
 
 theorem Appended.cur_step {cls : GClass} {wires : List Nat} {s s' : CState}
-    (ha : Appended cls wires s s') (hc : cls.isMCXLike = true) (σ0 : BState) :
-    ∃ g : AGate, g.wires = wires ∧ cur σ0 s' = g.applyClassical (cur σ0 s) := by
+    (ha : Appended cls wires s s') (hc : cls.isMCXLike = true) (σ0 : FState) :
+    ∃ g : AGate, g.wires = wires ∧ cur σ0 s' = applyF g (cur σ0 s) := by
   obtain ⟨g, hgc, hgw, hgates, _⟩ := ha.gates
   refine ⟨g, hgw, ?_⟩
   unfold cur
-  rw [hgates, Array.toList_push, runClassical_snoc]
-  unfold stepClassical
+  rw [hgates, Array.toList_push, runF_append]
+  show stepF _ g = _
+  unfold stepF
   rw [hgc, hc]; rfl
 
 theorem Appended.cur_eq {cls : GClass} {cs : List Nat} {t : Nat} {s s' : CState}
-    (ha : Appended cls (cs ++ [t]) s s') (hc : cls.isMCXLike = true) (σ0 : BState)
-    (ht : t < σ0.length) :
-    (cur σ0 s').getD t false =
-      Bool.xor ((cur σ0 s).getD t false) (cs.all fun c => (cur σ0 s).getD c false) := by
+    (ha : Appended cls (cs ++ [t]) s s') (hc : cls.isMCXLike = true) (σ0 : FState) :
+    cur σ0 s' t = Bool.xor (cur σ0 s t) (cs.all (cur σ0 s)) := by
   obtain ⟨g, hw, he⟩ := ha.cur_step hc σ0
   rw [he]
-  exact applyClassical_getD_eq g cs t hw _ (by rw [cur_length]; exact ht)
+  exact applyF_eq g cs t hw _
 
 theorem Appended.cur_ne {cls : GClass} {cs : List Nat} {t : Nat} {s s' : CState}
-    (ha : Appended cls (cs ++ [t]) s s') (hc : cls.isMCXLike = true) (σ0 : BState)
-    (q : Nat) (hq : q ≠ t) :
-    (cur σ0 s').getD q false = (cur σ0 s).getD q false := by
+    (ha : Appended cls (cs ++ [t]) s s') (hc : cls.isMCXLike = true) (σ0 : FState)
+    (q : Nat) (hq : q ≠ t) : cur σ0 s' q = cur σ0 s q := by
   obtain ⟨g, hw, he⟩ := ha.cur_step hc σ0
   rw [he]
-  exact applyClassical_getD_ne g cs t hw _ q hq
+  exact applyF_ne g cs t hw _ q hq
 
 /-! ### the two-state relation -/
 
 /-- what a piece of the compiler did between `s` and `s'`, seen from the qubit values:
 `W` = qubits (existing in `s`) it may have written, `K` = cache keys it may have added,
 `Mk` = qubits it may have marked -/
-structure Sem (σ0 : BState) (W : Nat → Prop) (K : BExp → Prop) (Mk : Nat → Prop) (s s' : CState) : Prop where
+structure Sem (σ0 : FState) (W : Nat → Prop) (K : BExp → Prop) (Mk : Nat → Prop) (s s' : CState) : Prop where
   nq : s.qc.numQubits ≤ s'.qc.numQubits
   free : s.qc.free = [] → s'.qc.free = []
-  frame : ∀ q, q < s.qc.numQubits → ¬ W q → (cur σ0 s').getD q false = (cur σ0 s).getD q false
+  frame : ∀ q, q < s.qc.numQubits → ¬ W q → cur σ0 s' q = cur σ0 s q
   keys : ∀ p ∈ s'.expq, (∃ p0 ∈ s.expq, p0.1 = p.1) ∨ K p.1
   marks : ∀ m ∈ s'.qc.marked, m ∈ s.qc.marked ∨ Mk m
 
-theorem Sem.refl {σ0 : BState} {W : Nat → Prop} {K : BExp → Prop} {Mk : Nat → Prop} (s : CState) :
+theorem Sem.refl {σ0 : FState} {W : Nat → Prop} {K : BExp → Prop} {Mk : Nat → Prop} (s : CState) :
     Sem σ0 W K Mk s s :=
   ⟨Nat.le_refl _, fun h => h, fun _ _ _ => rfl, fun p hp => Or.inl ⟨p, hp, rfl⟩, fun _ hm => Or.inl hm⟩
 
-theorem Sem.trans {σ0 : BState} {W : Nat → Prop} {K : BExp → Prop} {Mk : Nat → Prop} {s s1 s2 : CState}
+theorem Sem.trans {σ0 : FState} {W : Nat → Prop} {K : BExp → Prop} {Mk : Nat → Prop} {s s1 s2 : CState}
     (h1 : Sem σ0 W K Mk s s1) (h2 : Sem σ0 W K Mk s1 s2) : Sem σ0 W K Mk s s2 := by
   refine ⟨Nat.le_trans h1.nq h2.nq, fun h => h2.free (h1.free h), ?_, ?_, ?_⟩
   · intro q hq hw
@@ -121,14 +162,14 @@ theorem Sem.trans {σ0 : BState} {W : Nat → Prop} {K : BExp → Prop} {Mk : Na
     · exact h1.marks m h
     · exact Or.inr h
 
-theorem Sem.mono {σ0 : BState} {W W' : Nat → Prop} {K K' : BExp → Prop} {Mk Mk' : Nat → Prop} {s s' : CState}
+theorem Sem.mono {σ0 : FState} {W W' : Nat → Prop} {K K' : BExp → Prop} {Mk Mk' : Nat → Prop} {s s' : CState}
     (h : Sem σ0 W K Mk s s') (hw : ∀ q, q < s.qc.numQubits → W q → W' q) (hk : ∀ e, K e → K' e)
     (hm : ∀ m, Mk m → Mk' m) : Sem σ0 W' K' Mk' s s' :=
   ⟨h.nq, h.free, fun q hq hnw => h.frame q hq (fun hwq => hnw (hw q hq hwq)),
    fun p hp => (h.keys p hp).imp id (hk _), fun m hm' => (h.marks m hm').imp id (hm _)⟩
 
 /-- a step that changes neither the gates nor the semantic bookkeeping -/
-theorem Sem.of_quiet {σ0 : BState} {W : Nat → Prop} {K : BExp → Prop} {Mk : Nat → Prop} {s s' : CState}
+theorem Sem.of_quiet {σ0 : FState} {W : Nat → Prop} {K : BExp → Prop} {Mk : Nat → Prop} {s s' : CState}
     (hg : s'.qc.gates = s.qc.gates) (hn : s'.qc.numQubits = s.qc.numQubits) (hf : s'.qc.free = s.qc.free)
     (he : s'.expq = s.expq) (hm : s'.qc.marked = s.qc.marked) : Sem σ0 W K Mk s s' := by
   refine ⟨Nat.le_of_eq hn.symm, fun h => by rw [hf]; exact h, ?_, ?_, ?_⟩
@@ -136,7 +177,7 @@ theorem Sem.of_quiet {σ0 : BState} {W : Nat → Prop} {K : BExp → Prop} {Mk :
   · intro p hp; rw [he] at hp; exact Or.inl ⟨p, hp, rfl⟩
   · intro m hm'; rw [hm] at hm'; exact Or.inl hm'
 
-theorem cur_congr {σ0 : BState} {s s' : CState} (hg : s'.qc.gates = s.qc.gates) : cur σ0 s' = cur σ0 s := by
+theorem cur_congr {σ0 : FState} {s s' : CState} (hg : s'.qc.gates = s.qc.gates) : cur σ0 s' = cur σ0 s := by
   unfold cur; rw [hg]
 
 /-! ### primitives -/
@@ -147,7 +188,7 @@ theorem append_run {cls : GClass} {wires : List Nat} {u : Unit} {s s' : CState}
   obtain ⟨b, h⟩ := run_discard_ok.mp h
   exact appendG_run h
 
-theorem Appended.sem {σ0 : BState} {K : BExp → Prop} {Mk : Nat → Prop} {cls : GClass} {cs : List Nat} {t : Nat}
+theorem Appended.sem {σ0 : FState} {K : BExp → Prop} {Mk : Nat → Prop} {cls : GClass} {cs : List Nat} {t : Nat}
     {s s' : CState} (ha : Appended cls (cs ++ [t]) s s') (hc : cls.isMCXLike = true) :
     Sem σ0 (· = t) K Mk s s' := by
   refine ⟨Nat.le_of_eq ha.nq.symm, fun h => by rw [ha.free]; exact h, ?_, ?_, ?_⟩
@@ -164,7 +205,7 @@ theorem cx_run {a b : Nat} {u : Unit} {s s' : CState} (h : (cx a b).run s = .ok 
 theorem mcx_run {cs : List Nat} {t : Nat} {u : Unit} {s s' : CState} (h : (mcx cs t).run s = .ok (u, s')) :
     Appended (.MCX cs.length) (cs ++ [t]) s s' := append_run h
 
-theorem event_sem {σ0 : BState} {W : Nat → Prop} {K : BExp → Prop} {Mk : Nat → Prop} {e : String} {u : Unit}
+theorem event_sem {σ0 : FState} {W : Nat → Prop} {K : BExp → Prop} {Mk : Nat → Prop} {e : String} {u : Unit}
     {s s' : CState} (h : (event e).run s = .ok (u, s')) : Sem σ0 W K Mk s s' := by
   have := event_run h; subst this
   exact Sem.of_quiet rfl rfl rfl rfl rfl
@@ -200,7 +241,7 @@ theorem getFreeAncilla_fresh {a : Nat} {s s' : CState} (h : getFreeAncilla.run s
       exact ⟨rfl, rfl, rfl, hf, rfl, rfl⟩
     · next hne => exact absurd (by rw [hf]; rfl) hne
 
-theorem getFreeAncilla_sem {σ0 : BState} {W : Nat → Prop} {K : BExp → Prop} {Mk : Nat → Prop} {a : Nat}
+theorem getFreeAncilla_sem {σ0 : FState} {W : Nat → Prop} {K : BExp → Prop} {Mk : Nat → Prop} {a : Nat}
     {s s' : CState} (h : getFreeAncilla.run s = .ok (a, s')) (hf : s.qc.free = []) :
     Sem σ0 W K Mk s s' := by
   obtain ⟨_, hn, hg, hf', he, hm⟩ := getFreeAncilla_fresh h hf
@@ -256,7 +297,7 @@ theorem markAll_run : ∀ (ws : List Nat) {u : Unit} {s s' : CState}, (markAll w
       · exact Or.inr ⟨List.mem_cons_self, ha⟩
     · exact Or.inr ⟨List.mem_cons_of_mem _ hm, by rw [← a5]; exact ha⟩
 
-theorem markAll_sem {σ0 : BState} {W : Nat → Prop} {K : BExp → Prop} {ws : List Nat} {u : Unit}
+theorem markAll_sem {σ0 : FState} {W : Nat → Prop} {K : BExp → Prop} {ws : List Nat} {u : Unit}
     {s s' : CState} (h : (markAll ws).run s = .ok (u, s')) :
     Sem σ0 W K (fun m => m ∈ ws ∧ m ∈ s.qc.anc) s s' ∧ cur σ0 s' = cur σ0 s := by
   obtain ⟨b1, b2, b3, b4, _, b6⟩ := markAll_run ws h
@@ -264,7 +305,7 @@ theorem markAll_sem {σ0 : BState} {W : Nat → Prop} {K : BExp → Prop} {ws : 
   · intro q _ _; rw [cur_congr b1]
   · intro p hp; rw [b4] at hp; exact Or.inl ⟨p, hp, rfl⟩
 
-theorem markAncilla_sem {σ0 : BState} {W : Nat → Prop} {K : BExp → Prop} {w : Nat} {u : Unit}
+theorem markAncilla_sem {σ0 : FState} {W : Nat → Prop} {K : BExp → Prop} {w : Nat} {u : Unit}
     {s s' : CState} (h : (markAncilla w).run s = .ok (u, s')) :
     Sem σ0 W K (fun m => m = w ∧ w ∈ s.qc.anc) s s' ∧ cur σ0 s' = cur σ0 s := by
   obtain ⟨b1, b2, b3, b4, _, b6⟩ := markAncilla_run h
@@ -294,7 +335,7 @@ theorem expqSet_run {e : BExp} {q : Nat} {u : Unit} {s s' : CState} (h : (expqSe
     · exact Or.inl ⟨p, (List.mem_filter.mp hp).1, rfl⟩
     · exact Or.inr rfl
 
-theorem expqSet_sem {σ0 : BState} {W : Nat → Prop} {Mk : Nat → Prop} {e : BExp} {q : Nat} {u : Unit}
+theorem expqSet_sem {σ0 : FState} {W : Nat → Prop} {Mk : Nat → Prop} {e : BExp} {q : Nat} {u : Unit}
     {s s' : CState} (h : (expqSet e q).run s = .ok (u, s')) :
     Sem σ0 W (· = e) Mk s s' ∧ cur σ0 s' = cur σ0 s := by
   obtain ⟨hq, hk⟩ := expqSet_run h
@@ -318,5 +359,170 @@ theorem expqGet?_miss {e : BExp} {r : Option Nat} {s s' : CState} (h : (expqGet?
     rw [List.find?_eq_none]
     intro p hp; rw [hm p hp]; simp
   rw [this]; rfl
+
+/-! ### the fragment -/
+
+mutual
+/-- the compound (non-symbol) sub-expressions of an expression, with repetitions: the keys
+`compile_expr` looks up in / adds to the expression cache while compiling it -/
+def compSubs : BExp → List BExp
+  | .sym _ => []
+  | .tt => [.tt]
+  | .ff => [.ff]
+  | .not a => .not a :: compSubs a
+  | .and l => .and l :: compSubsList l
+  | .or l => .or l :: compSubsList l
+  | .xor l => .xor l :: compSubsList l
+  | .ite c t e => [.ite c t e]
+  | .imp a b => [.imp a b]
+def compSubsList : List BExp → List BExp
+  | [] => []
+  | a :: as => compSubs a ++ compSubsList as
+end
+
+mutual
+/-- built from symbols of `inputs` with `Not` / `And` / `Or` / `Xor` only -/
+def overInputs (inputs : List String) : BExp → Bool
+  | .sym n => inputs.contains n
+  | .not a => overInputs inputs a
+  | .and l => overInputsList inputs l
+  | .or l => overInputsList inputs l
+  | .xor l => overInputsList inputs l
+  | _ => false
+def overInputsList (inputs : List String) : List BExp → Bool
+  | [] => true
+  | a :: as => overInputs inputs a && overInputsList inputs as
+end
+
+/-- pairwise different under the structural comparison the cache uses -/
+def distinctB : List BExp → Bool
+  | [] => true
+  | x :: xs => xs.all (fun y => !(x == y)) && distinctB xs
+
+/-- no compound sub-expression occurs twice -/
+def treeLike (e : BExp) : Bool := distinctB (compSubs e)
+
+def Distinct (l : List BExp) : Prop := l.Pairwise (fun a b => (a == b) = false)
+
+theorem distinctB_iff {l : List BExp} : distinctB l = true ↔ Distinct l := by
+  unfold Distinct
+  induction l with
+  | nil => simp [distinctB]
+  | cons x xs ih =>
+    simp only [distinctB, Bool.and_eq_true, List.all_eq_true, Bool.not_eq_true', List.pairwise_cons, ih]
+
+/-! ### the state invariant between compiler steps -/
+
+/-- ambient facts: the argument names are not the name being defined and not reserved; the
+initial basis state is zero beyond the arguments -/
+structure Amb (inputs : List String) (σ0 : FState) (r : String) : Prop where
+  fresh : ∀ n ∈ inputs, n ≠ r ∧ reservedName n = false
+  init0 : ∀ q, inputs.length ≤ q → σ0 q = false
+
+structure Pre (inputs : List String) (ρ : Env) (σ0 : FState) (s : CState) : Prop where
+  good : Good s
+  free : s.qc.free = []
+  nin : inputs.length ≤ s.qc.numQubits
+  sge : ScratchGe inputs.length s
+  bind : ∀ i n, inputs[i]? = some n → dictGet? s.qc.qmap n = some i
+  vals : ∀ i n, inputs[i]? = some n → cur σ0 s i = ρ n
+
+theorem untouched_runF (gs : List AGate) (q : Nat) (h : ∀ g ∈ gs, q ∉ g.wires) (f : FState) :
+    runF gs f q = f q := by
+  induction gs generalizing f with
+  | nil => rfl
+  | cons g gs ih =>
+    rw [runF_cons, ih (fun g' hg' => h g' (List.mem_cons_of_mem _ hg'))]
+    unfold stepF
+    split
+    · unfold applyF
+      cases ht : g.wires.getLast? with
+      | none => rfl
+      | some t =>
+        dsimp only
+        split
+        · have : q ≠ t := by
+            rintro rfl; exact h g List.mem_cons_self (List.mem_of_getLast? ht)
+          simp [this]
+        · rfl
+    · rfl
+
+/-- qubits not yet allocated are still zero -/
+theorem zero_of_good {inputs : List String} {σ0 : FState} {r : String} (amb : Amb inputs σ0 r) {s : CState}
+    (hg : Good s) (hn : inputs.length ≤ s.qc.numQubits) :
+    ∀ q, s.qc.numQubits ≤ q → cur σ0 s q = false := by
+  intro q hq
+  unfold cur
+  rw [untouched_runF _ q _ σ0]
+  · exact amb.init0 q (Nat.le_trans hn hq)
+  · intro g hg' hw
+    exact absurd ((hg.gates_ok g hg').2.2.1 q hw) (by omega)
+
+theorem mem_of_getElem?' {l : List String} {i : Nat} {n : String} (h : l[i]? = some n) : n ∈ l ∧ i < l.length := by
+  obtain ⟨hi, he⟩ := List.getElem?_eq_some_iff.mp h
+  exact ⟨he ▸ List.getElem_mem hi, hi⟩
+
+theorem Pre.next {inputs : List String} {ρ : Env} {σ0 : FState} {r : String} (amb : Amb inputs σ0 r)
+    {W : Nat → Prop} {K : BExp → Prop} {Mk : Nat → Prop} {s s' : CState}
+    (hp : Pre inputs ρ σ0 s) (st : Step (· = r) s s') (sem : Sem σ0 W K Mk s s')
+    (hW : ∀ q, W q → inputs.length ≤ q) : Pre inputs ρ σ0 s' := by
+  refine ⟨st.good, sem.free hp.free, Nat.le_trans hp.nin st.nq_le, st.ge_keep _ hp.nin hp.sge, ?_, ?_⟩
+  · intro i n hi
+    have hm := (mem_of_getElem?' hi).1
+    rw [st.qmap_keep n (amb.fresh n hm).1 (amb.fresh n hm).2]
+    exact hp.bind i n hi
+  · intro i n hi
+    have hil := (mem_of_getElem?' hi).2
+    rw [sem.frame i (Nat.lt_of_lt_of_le hil hp.nin) (fun hw => by have := hW i hw; omega)]
+    exact hp.vals i n hi
+
+/-! ### specifications -/
+
+/-- semantic specification of `compileExpr e` on the fragment -/
+def ExprSem (inputs : List String) (ρ : Env) (σ0 : FState) (r : String) (e : BExp) : Prop :=
+  ∀ (dest : Option Nat) (sym : Option String) {a : Nat} {s s' : CState},
+    (compileExpr e dest sym).run s = .ok (a, s') →
+    Pre inputs ρ σ0 s →
+    (∀ p ∈ s.expq, ∀ c ∈ compSubs e, (p.1 == c) = false) →
+    (∀ d, dest = some d → inputs.length ≤ d ∧ d < s.qc.numQubits) →
+    (∀ x, sym = some x → x = r) →
+    (isSym e = true → dest = none ∧ sym = none) →
+    Sem σ0 (fun q => dest = some q) (· ∈ compSubs e)
+      (fun m => s.qc.numQubits ≤ m ∧ (dest = none → m ≠ a)) s s' ∧
+    (dest = none → (a < inputs.length ∨ s.qc.numQubits ≤ a) ∧ cur σ0 s' a = e.eval ρ) ∧
+    (∀ d, dest = some d → a = d ∧
+      cur σ0 s' d = Bool.xor (cur σ0 s d) (e.eval ρ))
+
+theorem compileSymbol_none_run {n : String} {a : Nat} {s s' : CState}
+    (h : (compileSymbol n none).run s = .ok (a, s')) : s' = s ∧ dictGet? s.qc.qmap n = some a := by
+  unfold compileSymbol at h
+  dsimp only at h
+  obtain ⟨u, s0, hp, h⟩ := run_bind_ok.mp h
+  obtain ⟨_, rfl⟩ := run_pure_ok.mp hp
+  obtain ⟨qc, s1, hq, h⟩ := run_bind_ok.mp h
+  obtain ⟨rfl, rfl⟩ := getQC_run hq
+  split at h
+  · next i hi =>
+    obtain ⟨rfl, rfl⟩ := run_pure_ok.mp h
+    exact ⟨rfl, hi⟩
+  · exact (run_throw_ok.mp h).elim
+
+theorem idx_of_mem {l : List String} {n : String} (h : n ∈ l) : ∃ i : Nat, l[i]? = some n := by
+  obtain ⟨i, hi, he⟩ := List.mem_iff_getElem.mp h
+  exact ⟨i, by rw [List.getElem?_eq_getElem hi, he]⟩
+
+theorem exprSem_sym {inputs : List String} {ρ : Env} {σ0 : FState} {r : String} (n : String)
+    (hin : n ∈ inputs) : ExprSem inputs ρ σ0 r (.sym n) := by
+  intro dest sym a s s' h hp _ _ _ hsym
+  obtain ⟨rfl, rfl⟩ := hsym rfl
+  unfold compileExpr at h
+  obtain ⟨rfl, hq⟩ := compileSymbol_none_run h
+  obtain ⟨i, hi⟩ := idx_of_mem hin
+  have := hp.bind i n hi
+  rw [hq] at this
+  have hai : a = i := by simpa using this
+  subst hai
+  refine ⟨Sem.refl _, fun _ => ⟨Or.inl (mem_of_getElem?' hi).2, ?_⟩, fun d hd => by cases hd⟩
+  rw [hp.vals a n hi]; rfl
 
 end QV.Compiler
